@@ -47,4 +47,16 @@ theorem C15_retry_keepalive (c : Cfg) (hq : Quiet c) (hto : c.to = none) (hiv : 
     rw [this]
     rfl
 
+/-- generated fact (F18's repair): the FIRST statement of `setSock` is
+    `if reconnecting and not self.keep_running: teardown(); return` — a reconnect that comes due after the application has
+    closed is not made.  A seeded change that removes or reshapes it breaks this obligation. -/
+theorem reconnect_guard_in_source : Gen.appReconnectGuard = true := by decide
+
+/-- in the model's worlds that guard is never taken: `keep_running` is tested at the head of the reconnect loop and neither
+    the `sleep` event nor the wait (the ping thread may run in it) changes it — only a close() from ANOTHER thread during the
+    wait can, which is what the real runs with a second thread cover (`closer-in-the-gap` scenarios). -/
+theorem C15_wait_keeps_running (c : Cfg) (s : St) (t : Nat) :
+    (waitUntil c (s.emit (.sleep c.reconnect)) t).1.keepRunning = s.keepRunning := by
+  rw [(frame_waitUntil c _ t).kr]; rfl
+
 end WS.Props.C15b
